@@ -18,15 +18,14 @@ var c16MaxW = math.NewIntWithDecimal(100, 18)
 func c16Header(h *c16, emit func(string) string, minAlloc, minVP string, e0, e1 string, n1 int, third bool) {
 	emit(fmt.Sprintf("reset %s %s", minAlloc, minVP))
 	next := h.f.App.IncentivesKeeper.GetLastGaugeID(h.f.Ctx) + 1
-	for _, g := range h.baseG {
+	// the base state's gauges in id order (the model hands out ids itself: lastGauge + 1)
+	for i, g := range h.baseG {
 		emit(fmt.Sprintf("hdr bgauge %d", g))
+		emit(fmt.Sprintf("hdr rollapp r%d %d", i, h.baseRa[i]))
 	}
 	emit(fmt.Sprintf("hdr gauge %d asset 1", next))
 	emit(fmt.Sprintf("hdr gauge %d asset 1", next+1))
 	emit(fmt.Sprintf("hdr gauge %d asset 0", next+2))
-	for i, g := range h.raGauge {
-		emit(fmt.Sprintf("hdr rollapp r%d %d", i, g))
-	}
 	emit(fmt.Sprintf("hdr egauge %d r0 1 %s 1", next+3, e0))
 	emit(fmt.Sprintf("hdr egauge %d r1 0 %s %d", next+4, e1, n1))
 	if third {
@@ -240,6 +239,72 @@ func c16GenTrace(h *c16, rng *Rng, emit func(string) string, nOps int) {
 		}
 		sinceBlock++
 		perturb := rng.Chance(30)
+		if rng.Chance(7) {
+			// world building and parameter ops in the middle of the trace
+			switch w := rng.Intn(10); {
+			case w < 3: // a rollapp is created (real MsgCreateRollapp -> RollappCreated hook)
+				if len(h.raGauge) < len(c16RollappIDs) && !perturb {
+					emit(fmt.Sprintf("addrollapp r%d", len(h.raGauge)))
+				} else {
+					emit(fmt.Sprintf("addrollapp r%d", rng.Intn(len(h.raGauge))))
+				}
+			case w < 5: // a gauge is created: endorsement gauge (of the new rollapp if there is one) or asset gauge
+				next := h.f.App.IncentivesKeeper.GetLastGaugeID(h.f.Ctx) + 1
+				if rng.Bool() {
+					ri := len(h.raGauge) - 1
+					if rng.Chance(30) {
+						ri = rng.Intn(len(h.raGauge))
+					}
+					perp := rng.Intn(2)
+					emit(fmt.Sprintf("hdr egauge %d r%d %d %s %d", next, ri, perp, c16Amt(rng), 1+rng.Intn(3)))
+					r.Hit("gauge-created-mid-trace-endorsement")
+				} else {
+					emit(fmt.Sprintf("hdr gauge %d asset 1", next))
+					r.Hit("gauge-created-mid-trace-asset")
+				}
+			default: // MsgUpdateParams
+				ma2, mv2 := h.minAl, h.minVP
+				switch rng.Intn(6) {
+				case 0:
+					mv2 = h.minVP.Add(c16Amt(rng)) // raise: votes cast under the lower minimum stay
+				case 1:
+					mv2 = h.minVP.QuoRaw(2)
+				case 2:
+					mv2 = math.OneInt()
+				case 3:
+					ma2 = []math.Int{math.ZeroInt(), math.OneInt(), dym, c16MaxW}[rng.Intn(4)]
+				case 4:
+					// just above the power of some voter
+					if vs := voters(); len(vs) > 0 {
+						v, _ := h.vote(vs[rng.Intn(len(vs))])
+						mv2 = v.VotingPower.AddRaw(int64(rng.Intn(3)) - 1)
+						if mv2.IsNegative() {
+							mv2 = math.ZeroInt()
+						}
+					}
+				default:
+					mv2 = dym.MulRaw(int64(rng.Intn(12)))
+				}
+				if mv2.LT(math.OneInt()) {
+					// MinVotingPower = 0 is accepted by Params.Validate but lets a delegator without stake store a
+					// vote with power 0, which the module's own `votes` invariant (Vote.Validate: > 0) rejects;
+					// the runs keep MinVotingPower >= 1 (registry assumption)
+					mv2 = math.OneInt()
+				}
+				if perturb {
+					switch rng.Intn(3) {
+					case 0:
+						mv2 = math.NewInt(-1)
+					case 1:
+						ma2 = c16MaxW.AddRaw(1)
+					default:
+						ma2 = math.NewInt(-5)
+					}
+				}
+				emit(fmt.Sprintf("setparams %s %s", ma2, mv2))
+			}
+			continue
+		}
 		switch k := rng.Intn(100); {
 		case k < 20: // delegate
 			a, v := act(), val()
@@ -434,7 +499,13 @@ func c16GenTrace(h *c16, rng *Rng, emit func(string) string, nOps int) {
 				f = "0.1"
 			}
 			r.Hit("slash")
-			emit(fmt.Sprintf("slash v%d %s", val(), f))
+			if rng.Chance(55) {
+				// infraction some blocks back: unbonding delegations / redelegations started since are slashed
+				// too (the trace's blocks are few, so "back" mostly reaches the start of the trace)
+				emit(fmt.Sprintf("slash v%d %s %d", val(), f, 1+rng.Intn(40)))
+			} else {
+				emit(fmt.Sprintf("slash v%d %s", val(), f))
+			}
 		case k < 90: // fund an endorsement gauge
 			g := h.eG[rng.Intn(len(h.eG))]
 			if perturb && rng.Bool() {
@@ -474,7 +545,7 @@ func c16Corpus(h *c16, emit func(string) string, endTrace func()) {
 	def := dym.String()
 	next := func() uint64 { return h.f.App.IncentivesKeeper.GetLastGaugeID(h.base) + 1 }
 	g0 := next() // asset gauges g0, g0+1; endorsement gauges g0+3 (r0, perpetual), g0+4 (r1)
-	ra0 := h.raGauge[0]
+	ra0 := h.baseRa[0]
 	hundred := dym.MulRaw(100).String()
 	half := math.NewIntWithDecimal(50, 18).String()
 
@@ -582,13 +653,88 @@ func c16Corpus(h *c16, emit func(string) string, endTrace func()) {
 	emit(fmt.Sprintf("delegate a2 v1 %s", dym.MulRaw(5)))
 	emit(fmt.Sprintf("vote a0 %d:%s,%d:%s", h.baseG[0], half, ra0, half))
 	emit(fmt.Sprintf("vote a1 %d:%s,%d:%s", ra0, half, h.baseG[0], half))
-	emit(fmt.Sprintf("vote a2 %d:%s,%d:%s,%d:%s", h.baseG[0], "30000000000000000001", h.baseG[1], "19999999999999999999", h.raGauge[1], half))
+	emit(fmt.Sprintf("vote a2 %d:%s,%d:%s,%d:%s", h.baseG[0], "30000000000000000001", h.baseG[1], "19999999999999999999", h.baseRa[1], half))
 	emit(fmt.Sprintf("delegate a0 v0 %s", dym.AddRaw(1)))
 	emit("revoke a2")
 	emit("end")
 	emit("begin 604801")
 	emit(fmt.Sprintf("claim a0 %d", g0+3))
 	emit(fmt.Sprintf("claim a1 %d", g0+3))
+	emit("end")
+	endTrace()
+
+	// (9) world building mid-trace: a third rollapp is created by a real MsgCreateRollapp, gets an
+	// endorsement gauge, is voted for; after the distribution epoch its endorsers claim
+	c16Header(h, emit, def, def, hundred, hundred, 2, false)
+	emit("begin 6")
+	emit(fmt.Sprintf("delegate a0 v0 %s", dym.MulRaw(10).AddRaw(7)))
+	emit(fmt.Sprintf("delegate a1 v1 %s", dym.MulRaw(30)))
+	emit(fmt.Sprintf("vote a0 %d:%s", ra0, half))
+	emit("addrollapp r2")
+	emit("addrollapp r2")
+	emit("addrollapp r0")
+	emit(fmt.Sprintf("hdr egauge %d r2 1 %s 1", g0+6, hundred))
+	emit(fmt.Sprintf("hdr gauge %d asset 1", g0+7))
+	emit(fmt.Sprintf("vote a0 %d:%s,%d:%s", ra0, half, g0+5, "33333333333333333333"))
+	emit(fmt.Sprintf("vote a1 %d:%s,%d:%s", g0+5, half, g0+7, half))
+	emit("end")
+	emit("begin 604801")
+	emit(fmt.Sprintf("claim a0 %d", g0+6))
+	emit(fmt.Sprintf("claim a1 %d", g0+6))
+	emit("end")
+	endTrace()
+
+	// (10) MsgUpdateParams raises MinVotingPower above a stored vote: the vote stays (SetParams does not
+	// revisit votes); the voter's next hook compares with the new minimum and prunes; invalid params
+	c16Header(h, emit, def, def, hundred, hundred, 2, false)
+	emit("begin 6")
+	emit(fmt.Sprintf("delegate a0 v0 %s", dym.MulRaw(5)))
+	emit(fmt.Sprintf("delegate a1 v0 %s", dym.MulRaw(9)))
+	emit(fmt.Sprintf("vote a0 %d:%s", ra0, half))
+	emit(fmt.Sprintf("vote a1 %d:%s", ra0, half))
+	emit(fmt.Sprintf("setparams %s %s", def, dym.MulRaw(8)))
+	emit(fmt.Sprintf("setparams %s -1", def))
+	emit(fmt.Sprintf("setparams %s 1", c16MaxW.AddRaw(1)))
+	emit(fmt.Sprintf("vote a0 %d:%s", ra0, c16MaxW))
+	emit("delegate a0 v0 1")
+	emit(fmt.Sprintf("setparams 1 %s", dym))
+	emit(fmt.Sprintf("vote a0 %d:7", ra0))
+	emit("end")
+	endTrace()
+
+	// (11) slash with an earlier infraction height while a redelegation from the slashed validator exists:
+	// SlashRedelegation -> Unbond fires the voter's hook on the destination validator
+	c16Header(h, emit, def, def, hundred, hundred, 2, false)
+	emit("begin 6")
+	emit(fmt.Sprintf("delegate a0 v0 %s", dym.MulRaw(10).AddRaw(3)))
+	emit(fmt.Sprintf("delegate a1 v0 %s", dym.MulRaw(4)))
+	emit(fmt.Sprintf("vote a0 %d:%s,%d:%s", ra0, half, g0, "33333333333333333333"))
+	emit(fmt.Sprintf("vote a1 %d:%s", ra0, half))
+	emit("end")
+	emit("begin 6")
+	emit(fmt.Sprintf("redelegate a0 v0 v1 %s", dym.MulRaw(6).AddRaw(1)))
+	emit(fmt.Sprintf("redelegate a1 v0 v2 %s", dym.MulRaw(4)))
+	emit(fmt.Sprintf("undelegate a0 v0 %s", dym))
+	emit("end")
+	emit("begin 6")
+	emit("slash v0 0.333333333333333333 5")
+	emit("slash v0 1 5")
+	emit("end")
+	endTrace()
+
+	// (12) a FINISHED endorsement gauge keeps its last EpochRewards (only active gauges are updated at the
+	// epoch end) and Claim does not look at the gauge's state: the sole endorser takes the whole 1-epoch
+	// gauge, and takes the same amount again in the next distribution epoch — out of the other gauge's coins
+	c16Header(h, emit, def, def, hundred, hundred, 1, false)
+	emit("begin 6")
+	emit(fmt.Sprintf("delegate a1 v0 %s", dym.MulRaw(10)))
+	emit(fmt.Sprintf("vote a1 %d:%s", h.baseRa[1], c16MaxW))
+	emit("end")
+	emit("begin 604801")
+	emit(fmt.Sprintf("claim a1 %d", g0+4))
+	emit("end")
+	emit("begin 604801")
+	emit(fmt.Sprintf("claim a1 %d", g0+4))
 	emit("end")
 	endTrace()
 
